@@ -15,7 +15,7 @@ INC = ["config", "core", "hal", "object/basic", "object/cia301", "service/cia301
 VARIANTS = {
     # name: (compiler, flags, defines)
     "asan":  ("gcc", "-std=c99 -O1 -g -fno-omit-frame-pointer -fsanitize=address,undefined -fno-sanitize=alignment -fno-sanitize-recover=all", []),
-    "asan2": ("gcc", "-std=c99 -O1 -g -fno-omit-frame-pointer -fsanitize=address,undefined -fno-sanitize=alignment -fno-sanitize-recover=all", ["CO_SSDO_N=2"]),
+    "asan2": ("gcc", "-std=c99 -O1 -g -fno-omit-frame-pointer -fsanitize=address,undefined -fno-sanitize=alignment -fno-sanitize-recover=all", ["CO_SSDO_N=2", "CO_CSDO_N=2"]),
     "casan": ("clang-14", "-std=c99 -O1 -g -fno-omit-frame-pointer -fsanitize=address,undefined -fno-sanitize=alignment -fno-sanitize-recover=all", []),
     "plain": ("gcc", "-std=c99 -O2 -g -DNDEBUG", []),
     "plain2": ("gcc", "-std=c99 -O2 -g -DNDEBUG", ["CO_SSDO_N=2"]),
